@@ -836,7 +836,7 @@ def prepare (H : Crypto) (flags : Nat) (ctx : Option Ctx) (unlock lock : Bytes) 
 /-- how a script ended, with the state handed to the next script (after thread.shiftScript) -/
 inductive Ended where
   | normal (s : St)      -- ran to its end: conditionals balanced, alt stack cleared, counters reset
-  | byReturn (s : St)    -- top-level OP_RETURN after Genesis: only the op counter and the early flag are reset
+  | byReturn (s : St)    -- top-level OP_RETURN after Genesis: the script succeeds there; the same hand-over as `normal`
   | stop (v : Verdict)
 
 /-- one non-empty script from its first opcode -/
@@ -844,7 +844,10 @@ def runScript (env : Env) (sidx : Nat) (ops : List POp) (s : St) (tr : List Snap
   match runOps env sidx ops ops 0 s tr with
   | (.failed e, tr) => (.stop (.reject e), tr)
   | (.panicked p, tr) => (.stop (.panic p), tr)
-  | (.returned s', tr) => (.byReturn { s' with numOps := 0, early := false, lastCodeSep := 0, sepSeen := false }, tr)
+  | (.returned s', tr) =>
+    -- each script has its own alt stack (the node's EvalScript keeps it in a local): it does not persist after an early
+    -- return either (finding F-C05-04: the code used to skip this on the early-return path)
+    (.byReturn { s' with as := [], numOps := 0, early := false, lastCodeSep := 0, sepSeen := false }, tr)
   | (.finished s', tr) =>
     if !s'.cond.isEmpty then (.stop (.reject "ErrUnbalancedConditional"), tr)
     else (.normal { s' with as := [], numOps := 0, early := false, lastCodeSep := 0, sepSeen := false }, tr)
@@ -904,11 +907,10 @@ def execute (H : Crypto) (flags : Nat) (ctx : Option Ctx) (unlock lock : Bytes) 
       match runScript env 0 p.unlock {} [] with
       | (.stop v, tr) => (v, tr)
       | (.byReturn s1, tr) =>
-        -- no end-of-script processing after an early return: an empty locking script is an invalid PC
-        let tr := clampSnap lens 1 s1 :: tr
+        -- an early return ends the unlocking script like its last opcode would: an empty locking script is skipped
         (match p.lock with
-         | [] => (.reject "ErrInvalidProgramCounter", tr)
-         | _ => runLock env p ctx.isNone s1.ds s1 tr)
+         | [] => finalCheck env s1 (clampSnap lens 2 s1 :: tr)
+         | _ => runLock env p ctx.isNone s1.ds s1 (clampSnap lens 1 s1 :: tr))
       | (.normal s1, tr) =>
         match p.lock with
         | [] => finalCheck env s1 (clampSnap lens 2 s1 :: tr)
